@@ -618,6 +618,16 @@ def links_accumulate(repo: Repo, prop: str = PROP, rule: str = "C13.LINKS-ACCUMU
         raise AnalysisError(f"Junction.add_link not evaluable: {err}") from err
     got = [(e.get("link")._name, e.get("follower_index")) for e in j.get("links")]
     r.check(got == [("link0", 10), ("link1", 11), ("link2", 12)], add, "three links on one leader are all kept", f"after three add_link calls the leader junction holds {got}: followers registered earlier lose their link and stay behind when the leader moves", add.node, key="kept")
+    # the order in which the user registers things is free: a clamp added AFTER the links of its junction leaves them in place
+    addc = repo.find_method(jcls, "add_clamp")
+    r.require(addc is not None, "Junction.add_clamp vanished")
+    j.set("clamp", None)
+    try:
+        Evaluator(repo=repo, module=addc.module, call_hook=hook).call_funcinfo(addc, [j, Obj("clamp")])
+    except (Raised, NotEvaluable) as err:
+        raise AnalysisError(f"Junction.add_clamp not evaluable on a junction with links: {err}") from err
+    got2 = [(e.get("link")._name, e.get("follower_index")) for e in j.get("links")]
+    r.check(got2 == got, addc, "links registered before the clamp survive add_clamp", f"after add_link x 3 and then add_clamp the junction holds the links {got2} (before: {got}): optimizer.add_link(link); optimizer.add_clamp(clamp of its leader) - the order of the airfoil example - silently drops the link, the follower stays behind when its leader moves", addc.node, key="clamp-after-links")
     upd = repo.func("optimize.grid.GridBase.update")
     grid = Obj("grid", cls=repo.cls("optimize.grid.GridBase"))
     pts = {k: Sym(f"p{k}") for k in (0, 10, 11, 12)}
